@@ -24,11 +24,13 @@ let parse_atom (s : string) : atom =
   | 'S' -> AStr (List.init (String.length body / 2) (fun i -> z_of_int (int_of_string ("0x" ^ String.sub body (2 * i) 2))))
   | _ -> failwith ("bad atom " ^ s)
 
+let parse_atoms (inner : string) : atom list =
+  if inner = "" then [] else List.map parse_atom (String.split_on_char ',' inner)
 let parse_key (s : string) : key =
-  if s.[0] = 'A' then begin
-    let inner = String.sub s 2 (String.length s - 3) in
-    if inner = "" then KArr [] else KArr (List.map parse_atom (String.split_on_char ',' inner))
-  end else KAtom (parse_atom s)
+  let n = String.length s in
+  if n >= 4 && String.sub s 0 4 = "A(A(" then KWrap (parse_atoms (String.sub s 4 (n - 6)))
+  else if s.[0] = 'A' then KArr (parse_atoms (String.sub s 2 (n - 3)))
+  else KAtom (parse_atom s)
 
 let hex2 (z : z) = Printf.sprintf "%02x" (int_of_z z)
 let show_atom = function
@@ -39,6 +41,7 @@ let show_atom = function
 let show_key = function
   | KAtom a -> show_atom a
   | KArr l -> "A(" ^ String.concat "," (List.map show_atom l) ^ ")"
+  | KWrap l -> "A(A(" ^ String.concat "," (List.map show_atom l) ^ "))"
 
 (* current universe *)
 let ukeys : key array ref = ref [||]
@@ -47,11 +50,13 @@ let udstr : (string, string) Hashtbl.t = Hashtbl.create 16
 let udjson : (string, string) Hashtbl.t = Hashtbl.create 16
 
 (* arrays: the real code from the header; an array not in the universe cannot occur *)
-let arrhash (l : atom list) : z =
-  match Hashtbl.find_opt ucodes (show_key (KArr l)) with
+let arrhash (k : key) : z =
+  match Hashtbl.find_opt ucodes (show_key k) with
   | Some c -> c
-  | None -> failwith ("no code for array key " ^ show_key (KArr l))
+  | None -> failwith ("no code for array key " ^ show_key k)
 let hcode (k : key) : z = khash arrhash k
+(* the key identity of the code: same hash code and Compare = 0 *)
+let keq (a : key) (b : key) : bool = kid arrhash a b
 
 let dstr k = match Hashtbl.find_opt udstr (show_key k) with Some s -> s | None -> "?" ^ show_key k
 let djson k = match Hashtbl.find_opt udjson (show_key k) with Some s -> s | None -> "?" ^ show_key k
@@ -68,8 +73,8 @@ let header (toks : string list) : string =
       k
     | _ -> failwith ("bad universe token " ^ t)) toks in
   ukeys := Array.of_list ks;
-  let eqm = String.concat "" (List.map (fun a -> String.concat "" (List.map (fun b -> if keq a b then "1" else "0") ks)) ks) in
-  let ac = String.concat "," (List.map (fun k -> match k with KAtom a -> string_of_z (ahash a) | KArr _ -> "-") ks) in
+  let eqm = String.concat "" (List.map (fun a -> String.concat "" (List.map (fun b -> if ceq a b then "1" else "0") ks)) ks) in
+  let ac = String.concat "," (List.map (fun k -> match k with KAtom a -> string_of_z (ahash a) | _ -> "-") ks) in
   "eq=" ^ eqm ^ ";acode=" ^ ac
 
 let show_oz = function Ok z -> string_of_z z | Err -> "!" | Crash -> "#"
@@ -77,9 +82,9 @@ let show_optv dflt = function Some v -> string_of_z v | None -> dflt
 let show_kv (k, v) = "(" ^ show_key k ^ ":" ^ string_of_z v ^ ")"
 let show_okv = function Ok kv -> show_kv kv | Err -> "!" | Crash -> "#"
 let show_ok = function Ok k -> show_key k | Err -> "!" | Crash -> "#"
-(* the range macro binds key and value per iteration; only the values are observed (the key
-   variable is typed by its first binding, see docs/C14.md) *)
-let show_olist = function Ok l -> String.concat "," (List.map (fun (_, v) -> string_of_z v) l) | Err -> "!" | Crash -> "#"
+let show_olist = function
+  | Ok l -> String.concat "|" (List.map (fun (k, v) -> show_key k ^ "=" ^ string_of_z v) l)
+  | Err -> "!" | Crash -> "#"
 
 let render_str (es, cut) =
   let s = "{" ^ String.concat "" (List.map (fun (k, v) -> dstr k ^ ":" ^ string_of_z v ^ " ") es) in
@@ -112,25 +117,25 @@ let positions nops =
 
 let history (mode : string) (ops : string list) : string * string =
   let ops = List.map parse_op ops in
-  let t = List.fold_left (fun t o -> step keq hcode unwrap t o) empty ops in
+  let t = List.fold_left (fun t o -> step ceq keq hcode unwrap t o) empty ops in
   let s = List.fold_left (fun s o -> s_step keq unwrap s o) [] ops in
   let ks = Array.to_list !ukeys in
   let pos = positions (List.length ops) in
   let cat = String.concat in
-  let loops_m = if mode = "S" then ";lm=" ^ show_olist (loop_macro keq hcode unwrap t) else "" in
+  let loops_m = if mode = "S" then ";lm=" ^ show_olist (loop_macro ceq hcode unwrap t) else "" in
   let loops_s = if mode = "S" then ";lm=" ^ show_olist (s_loop s) else "" in
   let m =
     "len=" ^ show_oz (len t)
     ^ ";keys=" ^ cat "," (List.map show_key (keys t))
-    ^ ";get=" ^ cat "," (List.map (fun k -> show_optv "!" (hash_get keq hcode unwrap t k)) ks)
-    ^ ";getd=" ^ cat "," (List.map (fun k -> show_optv "D" (hash_get_default keq hcode t k)) ks)
-    ^ ";hp=" ^ cat "" (List.map (fun p -> show_okv (hpair keq hcode unwrap t p)) pos)
+    ^ ";get=" ^ cat "," (List.map (fun k -> show_optv "!" (hash_get ceq hcode unwrap t k)) ks)
+    ^ ";getd=" ^ cat "," (List.map (fun k -> show_optv "D" (hash_get_default ceq hcode unwrap t k)) ks)
+    ^ ";hp=" ^ cat "" (List.map (fun p -> show_okv (hpair ceq hcode unwrap t p)) pos)
     ^ ";rl=" ^ show_oz (len t)
-    ^ ";rk=" ^ cat "," (List.map (fun p -> show_ok (range_key keq hcode unwrap t p)) pos)
-    ^ ";rp=" ^ cat "" (List.map (fun p -> show_okv (range_pair keq hcode unwrap t p)) pos)
+    ^ ";rk=" ^ cat "," (List.map (fun p -> show_ok (range_key ceq hcode unwrap t p)) pos)
+    ^ ";rp=" ^ cat "" (List.map (fun p -> show_okv (range_pair ceq hcode unwrap t p)) pos)
     ^ loops_m
-    ^ ";str=" ^ render_str (str_obs keq hcode unwrap t)
-    ^ ";json=" ^ render_json (json_obs keq hcode unwrap t) in
+    ^ ";str=" ^ render_str (str_obs ceq hcode unwrap t)
+    ^ ";json=" ^ render_json (json_obs ceq hcode unwrap t) in
   let sp =
     "len=" ^ show_oz (s_len s)
     ^ ";keys=" ^ cat "," (List.map show_key (s_keys s))
